@@ -89,6 +89,51 @@ def array_case(rec, wrapper_kind, dtype):
     return probs
 
 
+def seq_case(rec, wrapper_kind):
+    """a sequence of calls (changing key orders, dict / list inputs, extra keys) on ONE wrapper object"""
+    from ixai.utils.wrappers import SklearnWrapper, TorchWrapper
+    names = list(rec["names"]) or None
+    received = []
+
+    def weighted(arr):
+        a = np.asarray(arr, dtype=float)
+        received.append(a.copy())
+        return [sum((k + 1) * a[r, k] for k in range(a.shape[1])) for r in range(a.shape[0])]
+
+    if wrapper_kind == "sklearn":
+        w = SklearnWrapper(lambda arr: _shape_out(weighted(arr), "n_c", "float64"), feature_names=names)
+    else:
+        import torch
+        w = TorchWrapper(lambda t: torch.tensor(_shape_out(weighted(t.detach().cpu().numpy()), "n_c", "float64")), feature_names=names)
+
+    def next_order(ko):
+        return [ko[1], ko[2], ko[0]]
+
+    for ci, (c, want) in enumerate(zip(rec["calls"], rec["expected"])):
+        def row(i, ko):
+            d = {f: float(_val(i, f)) for f in ko}
+            if c["extra"]:
+                d = {"zz": 999.0, **d} if i % 2 else {**d, "zz": 999.0}
+            return d
+        if c["batch"] == 0:
+            x = row(1, list(c["ko"]))
+        else:
+            x = [row(i, list(c["ko"]) if i == 1 else next_order(list(c["ko"]))) for i in range(1, c["batch"] + 1)]
+        try:
+            got = w(x)
+        except Exception as e:
+            return [("wrapper.raises", "%s call %d of %s: %s: %s" % (wrapper_kind, ci + 1, rec["calls"], type(e).__name__, str(e)[:120]))]
+        if c["batch"] == 0:
+            ok = _canon_equal(got, want if isinstance(want, dict) else {str(i): v for i, v in enumerate(want)})
+        else:
+            ok = isinstance(got, list) and len(got) == c["batch"] and all(
+                _canon_equal(g, wnt if isinstance(wnt, dict) else {str(i): v for i, v in enumerate(wnt)}) for g, wnt in zip(got, want))
+        if not ok:
+            return [("wrapper.stateless_canonical_form", "%s names=%s: call %d of the sequence %s returned %r, canonical form %r" % (
+                wrapper_kind, names, ci + 1, rec["calls"], got, want))]
+    return []
+
+
 def river_case(rec):
     from ixai.utils.wrappers import RiverWrapper
     labels = list(rec["labels"])
